@@ -1848,6 +1848,14 @@ class Evaluator:
             if idx[4] != T.NONE:
                 return T.opaque('slice step')
             return self._slice(base, idx[2], idx[3])
+        if T.tag(base) == 'cls' and T.is_const(idx) and isinstance(idx[1], str):
+            ci = self.p.classes.get(base[1])
+            if ci is not None and ci.is_enum:
+                # EnumClass['NAME']: the member of that name
+                for n_, m_ in self._enum_members(ci, 0):
+                    if n_ == idx[1]:
+                        return m_
+                return T.raise_('KeyError')
         if T.is_op(base, 'BARR'):
             return T.getitem(base[2], idx)
         if T.tag(base) == 'obj':
